@@ -174,8 +174,8 @@ func runTextField(w *harness.W, hc hcase, sample bool) {
 				m.cursor++
 			}
 		case "api-insert":
-			st.tf.InsertStringAtCursor("z你")
-			m.insert([]string{"z", "你"})
+			st.tf.InsertStringAtCursor("z\u4f60")
+			m.insert([]string{"z", "\u4f60"})
 		case "api-cursor-to-2", "api-cursor-to-99":
 			n := 2
 			if op == "api-cursor-to-99" {
@@ -561,4 +561,29 @@ func (check) Finalize(tier string, m *harness.Merged) string {
 		return "a widget was never exercised"
 	}
 	return ""
+}
+
+// Replay re-executes a recorded history.
+func (c check) Replay(w *harness.W, raw json.RawMessage) {
+	var probe map[string]json.RawMessage
+	json.Unmarshal(raw, &probe)
+	if j, ok := probe["journal"]; ok {
+		var s string
+		json.Unmarshal(j, &s)
+		raw = json.RawMessage(s)
+	}
+	var hc hcase
+	json.Unmarshal(raw, &hc)
+	if hc.Widget == "textfield" {
+		runTextField(w, hc, false)
+		return
+	}
+	sess, err := vxh.Start(40, 2, refterm.Caps{Unicode: true}, vaxis.Options{}, nil)
+	if err != nil {
+		fmt.Println("start failed:", err)
+		return
+	}
+	sess.Sync()
+	defer sess.Close()
+	runTextInput(w, &tiEnv{sess}, hc, false)
 }
